@@ -23,6 +23,9 @@ params (all JSON-able):
                                    between assignment and the first delivery from p
   combos: [[start, [cuts...]], ...]  (C08) before the program: for each pair seek(0, start), serve responses by the cut
                                    plan, poll until position() has passed everything the broker serves
+  combo_call / drain_call: "getone"  poll with getone() (bounded by a timeout) instead of getmany()
+  offset_fetch_delay_ms: n         the coordinator answers OffsetFetch n virtual ms late (a slow / loading coordinator)
+  late_leader: {"part": p, "after_ms": n}   the leader of partition p is elected only n ms after assign()
   codec: None | "py"               run the consumer on the pure-Python record readers
   waiter_order: fifo | lifo         order in which blocked getone()/getmany() callers are woken (the library iterates a set)
   expect_oor: {"0": n}              the committed offset when it lies outside the log (position() may report it until the
@@ -65,11 +68,12 @@ class ConsumerCluster(Cluster):
         self._burst = {}  # conn -> [time of the last Fetch, consecutive Fetches without an idle gap]
         self._same_data = [None, 0]
 
-    def h_Fetch(self, conn, req, entry, fault):
-        # Deliveries are instantaneous in the explorer, so a client that re-sends a Fetch the moment the previous one is
-        # answered (e.g. NOT_LEADER while its metadata refresh is queued behind its own long poll on another connection)
-        # would loop forever at one virtual instant.  A real network has latency: after BURST back-to-back fetches on a
-        # connection every further one is answered one RTT later, which lets timers fire.
+    def on_request(self, conn, frame, fault=None):
+        # Deliveries are instantaneous in the explorer, so a client that re-sends a request the moment the previous one is
+        # answered (a Fetch answered NOT_LEADER while its metadata refresh is queued behind its own long poll on another
+        # connection; Metadata while a leader election is pending) would loop forever at one virtual instant.  A real
+        # network has latency: after BURST back-to-back requests on a connection every further one is read one RTT later,
+        # which lets timers fire.
         now = self.world.loop.time()
         st = self._burst.setdefault(conn, [now, 0])
         if now - st[0] > 5 * self.RTT:
@@ -77,14 +81,29 @@ class ConsumerCluster(Cluster):
         st[0] = now
         st[1] += 1
         if st[1] <= self.BURST:
-            return super().h_Fetch(conn, req, entry, fault)
+            return Cluster.on_request(self, conn, frame, fault)
+        conn.busy = True
+
+        def later():
+            if not conn.closed:
+                conn.busy = False
+                Cluster.on_request(self, conn, frame, fault)
+
+        self.world.loop.call_later(self.RTT, later)
+
+    offset_fetch_delay = 0.0
+
+    def h_OffsetFetch(self, conn, req, entry, fault):
+        if not self.offset_fetch_delay:
+            return Cluster.h_OffsetFetch(self, conn, req, entry, fault)
+        # a slow coordinator: the request is applied and answered `offset_fetch_delay` later
         self.withhold(conn)
 
         def later():
             if not conn.closed:
-                Cluster.h_Fetch(self, conn, req, entry, fault)
+                Cluster.h_OffsetFetch(self, conn, req, entry, fault)
 
-        self.world.loop.call_later(self.RTT, later)
+        self.world.loop.call_later(self.offset_fetch_delay, later)
 
     def _fetch_body(self, conn, req, forced):
         self.fetch_count += 1
@@ -239,6 +258,13 @@ class ConsumerScenario:
         elif cuts:
             cl.cut_plan = list(cuts)
         cl.fetch_cap = p.get("fetch_cap", 400)
+        cl.offset_fetch_delay = p.get("offset_fetch_delay_ms", 0) / 1000.0
+        if p.get("late_leader"):
+            # leader election for this partition is still pending at assignment time (metadata: LEADER_NOT_AVAILABLE)
+            ll = p["late_leader"]
+            sp = cl.partition("t", ll["part"])
+            self._late = (sp, sp.leader, ll["after_ms"] / 1000.0)
+            sp.leader = -1
         cl.fault_kinds = tuple(p.get("faults", ()))
         cl.fault_apis = set(p.get("fault_apis", ("Fetch",)))
         cl.err_codes = {k: list(v) for k, v in p.get("errs", {}).items()}
@@ -366,6 +392,14 @@ class ConsumerScenario:
         parts = sorted(int(k) for k in p["logs"])
         consumer.assign([self.tp(i) for i in parts])
         self.rec("assigned", tuple(parts))
+        if p.get("late_leader"):
+            sp, leader, after = self._late
+
+            def elect():
+                sp.leader = leader
+                world.log("leader-elected", sp.index, leader)
+
+            world.loop.call_later(after, elect)
         if p.get("combos"):
             await self.run_combos()
         tasks = [world.spawn("c", self.prog_task, i, prog) for i, prog in enumerate(p.get("program", []))]
@@ -414,8 +448,14 @@ class ConsumerScenario:
             maxpolls = len(tl.batches) + 3
             polls = 0
             pos = None
+            by_one = self.p.get("combo_call") == "getone"
+            if by_one:
+                maxpolls += sum(txn_span for txn_span in (b[2] - b[1] + 1 for b in tl.batches))
             while polls < maxpolls:
-                await self.do_call("c", k, ["getmany", {"t": 100}], timeout=2.0)
+                if by_one:
+                    await self.do_call("c", k, ["getone"], timeout=0.1)
+                else:
+                    await self.do_call("c", k, ["getmany", {"t": 100}], timeout=2.0)
                 polls += 1
                 try:
                     pos = await asyncio.wait_for(c.position(tp), 1.0)
@@ -530,7 +570,10 @@ class ConsumerScenario:
             else:
                 done_at = None
             n = len(self.h)
-            await self.do_call("d", k, ["getmany", {"t": p.get("drain_poll_ms", 100)}], timeout=2.0)
+            if p.get("drain_call") == "getone":
+                await self.do_call("d", k, ["getone"], timeout=p.get("drain_poll_ms", 100) / 1000.0)
+            else:
+                await self.do_call("d", k, ["getmany", {"t": p.get("drain_poll_ms", 100)}], timeout=2.0)
             k += 1
             if any(e[0] == "raised" for e in self.h[n:]):
                 # an application does not spin on a failing poll
